@@ -278,6 +278,40 @@ def apply_op(obj, op):
     return "ok", None
 
 
+def twin_pair(cs, cname):
+    """Two objects of the class built from the very same argument objects (one vertex array, one list of face arrays, one
+    0-d radius): what a caller does who instantiates a template twice.  Whatever is done to one of them afterwards, the
+    other one must go on describing its own current data."""
+    def both(make):
+        return make(), make()
+
+    if cname == "Polyhedron":
+        P = bases.convex_points("prism5").copy()
+        h = geom.hull_facets(P)
+        # faces as index arrays whose vertices are *not* listed in sequential order around the face (two entries swapped, some
+        # faces reversed): the documented faces_are_convex=True + sort_faces route
+        F = []
+        for k_, f in enumerate(h.facets):
+            g = list(f)[::-1] if k_ % 2 else list(f)
+            if len(g) > 3:
+                g[1], g[2] = g[2], g[1]
+            F.append(np.array(g))
+        return both(lambda: cs.Polyhedron(P, F, faces_are_convex=True))
+    if cname == "ConvexPolyhedron":
+        P = bases.convex_points("chiral7").copy()
+        return both(lambda: cs.ConvexPolyhedron(P))
+    if cname == "ConvexSpheropolyhedron":
+        P, r = bases.convex_points("chiral7").copy(), np.array(0.3)
+        return both(lambda: cs.ConvexSpheropolyhedron(P, r))
+    kind = {"Polygon": "comb-ccw", "ConvexPolygon": "pentagon-tilted", "ConvexSpheropolygon": "quad-xy"}[cname]
+    V, n = bases.polygons(kind)
+    V, n = np.array(V, float), np.array(n, float)
+    if cname == "ConvexSpheropolygon":
+        r = np.array(0.4)
+        return both(lambda: cs.ConvexSpheropolygon(V, r, normal=n))
+    return both(lambda: getattr(cs, cname)(V, normal=n))
+
+
 def vertex_map_det(V0, V1):
     """Best linear map M with (V1-c1) = (V0-c0) M ; returns (det M, orthogonality defect)."""
     a, b = V0 - V0.mean(0), V1 - V1.mean(0)
@@ -301,7 +335,7 @@ class Monitor:
     def info(self, **kw):
         return dict({"class": self.cname, "base": self.blabel, "history": [opname(o) for o in self.history]}, **kw)
 
-    def coherent(self, op):
+    def coherent(self, op, what="lags-behind-geometry:"):
         rec, obj = self.rec, self.obj
         random.seed(777)
         np.random.seed(777)
@@ -329,7 +363,7 @@ class Monitor:
                             L, 1e-9, fpr.is3d(obj), skip=skip)
         diffs += fpr.compare(loose, {k: fb[k] for k in LOOSE if k in fb}, L, 1e-6, fpr.is3d(obj))
         names = sorted({d[0] for d in diffs})
-        rec.check("coherent-after-op", not diffs, f"{self.cname}.{mechname(op)}/lags-behind-geometry:" + ",".join(names[:4]),
+        rec.check("coherent-after-op", not diffs, f"{self.cname}.{mechname(op)}/{what}" + ",".join(names[:4]),
                   lambda: self.info(diffs=diffs[:8], vertices=np.asarray(obj.vertices)))
         return not diffs
 
@@ -410,6 +444,23 @@ def run_case(i, rng, rec, tier, state):
             M = Monitor(rec, cname, blabel, ctor())
             M.step(op)
             rec.nontriv(cname, blabel, opname(op))
+        if bi == 0:
+            # two objects built from the same argument objects: every operation on one, then the *other* is judged
+            rec.cls("twin-built-from-the-same-arguments")
+            for op in alphabet(cs, cls):
+                if op[0] == "read":
+                    continue
+                try:
+                    with contracts.quiet():
+                        A_, B_ = twin_pair(cs, cname)
+                except Exception as e:
+                    rec.note("twin pair not constructible: " + type(e).__name__)
+                    break
+                MB = Monitor(rec, cname, "twin-of-the-operated-object", B_)
+                with contracts.quiet():
+                    apply_op(A_, op)
+                MB.history = [op]
+                MB.coherent(op, what="object-built-from-the-same-arguments-no-longer-describes-itself:")
         rec.sample({"kind": kind, "class": cname, "base": blabel, "alphabet": [opname(o) for o in alphabet(cs, cls)][:12]})
         return
     if kind in ("depth2", "depth3"):
